@@ -49,17 +49,18 @@ def valJ : Val → Json
   | .shli a b => Json.arr #[Json.str "shl", valJ a, valJ b]
   | .ori a b => Json.arr #[Json.str "or", valJ a, valJ b]
 
-def result (fs : List Field) (r : Except Err (List Val)) : Json :=
+def result (fs : List Field) (r : Except Err (List Val)) (accepts : Option Bool := none) : Json :=
   let f := ("fields", jList (fun x : Field => Json.str x.name) fs)
+  let a := match accepts with | some b => [("accepts", Json.bool b)] | none => []
   match r with
-  | .ok vs => Json.mkObj [f, ("vals", jList valJ vs)]
-  | .error e => Json.mkObj [f, ("raised", Json.str e.name)]
+  | .ok vs => Json.mkObj ([f, ("vals", jList valJ vs)] ++ a)
+  | .error e => Json.mkObj ([f, ("raised", Json.str e.name)] ++ a)
 
 /-- args: {"cfg": [streamer], "op": streamop} -/
 def alu : Handler := fun j => do
   let cfg ← listOf streamerOf (← field j "cfg")
   let op ← streamOpOf (← field j "op")
-  return result (aluFields cfg) (aluVals cfg op)
+  return result (aluFields cfg) (aluVals cfg op) (some (regionAccepts cfg op))
 
 def gkernelOf (j : Json) : Except String GKernel := do
   match (← arr j).toList with
@@ -89,7 +90,7 @@ def gemmx : Handler := fun j => do
   let s ← streamOpOf (← field j "op")
   let op : GemmxOp := { s := s, generics := ← listOf gkernelOf (← field j "generics"),
                         i8out := ← bool (← field j "i8out") }
-  return result (gemmxFields cfg n) (gemmxVals v cfg n op)
+  return result (gemmxFields cfg n) (gemmxVals v cfg n op) (some (regionAccepts cfg s))
 
 /-- args: {"cfg", "fixed", "op": streamop, "kernel": ["notgeneric"] | ["add"] | ["other"] |
 ["rescale", down, in_zp, mult, out_zp, shift]} -/
@@ -105,7 +106,7 @@ def xdma : Handler := fun j => do
       | s => throw s!"bad kernel {s}"
     | [_, d, a, b, c, e] => pure (XKernel.rescale (← bool d) (← int a) (← int b) (← int c) (← int e))
     | _ => throw "bad kernel"
-  return result (xdmaFields v cfg) (xdmaVals cfg { s := s, kernel := kernel })
+  return result (xdmaFields v cfg) (xdmaVals cfg { s := s, kernel := kernel }) (some (regionAccepts cfg s))
 
 def hwpe : Handler := fun _ => do
   return result hwpeFields (.ok hwpeVals)
